@@ -47,11 +47,20 @@ def goenv():
     return env
 
 
-def sh(cmd, cwd=None, env=None, timeout=None, input=None):
-    """Run a command, return (rc, stdout+stderr)."""
+COQ_MEM_KB = int(os.environ.get("VERIF_COQ_MEM_KB", str(24 * 1024 * 1024)))
+
+
+def _limit_mem():
+    import resource
+    lim = COQ_MEM_KB * 1024
+    resource.setrlimit(resource.RLIMIT_AS, (lim, lim))
+
+
+def sh(cmd, cwd=None, env=None, timeout=None, input=None, memlimit=False):
+    """Run a command, return (rc, stdout+stderr). memlimit: cap the address space (runaway vm_compute protection)."""
     t0 = time.time()
     try:
-        p = subprocess.run(cmd, cwd=cwd, env=env, timeout=timeout, input=input,
+        p = subprocess.run(cmd, cwd=cwd, env=env, timeout=timeout, input=input, preexec_fn=_limit_mem if memlimit else None,
                            stdout=subprocess.PIPE, stderr=subprocess.STDOUT,
                            shell=isinstance(cmd, str), text=True, errors="replace")
         return p.returncode, p.stdout
@@ -182,9 +191,15 @@ def coq_sync(group=None):
     if COQ != COQSRC:
         os.makedirs(COQ, exist_ok=True)
         with Lock(os.path.join(BUILD, "coq-sync.lock")):
-            sh(["rsync", "-a", "--exclude", "Gen_*.v", "--exclude", "Gen_*.vo", "--exclude", "Gen_*.glob",
-                "--exclude", "_CoqProject*", "--exclude", "Makefile*", "--exclude", ".Makefile*",
-                COQSRC + "/", COQ + "/"])
+            # sources always follow the main tree (Gen_* files are private to the scratch tree); compiled files are
+            # only seeded when absent, so objects built here against the private Gen_* files are never overwritten
+            # (make rebuilds whatever is older than its sources)
+            common = ["--exclude", "Gen_*", "--exclude", "_CoqProject*", "--exclude", "Makefile*", "--exclude", ".Makefile*",
+                      "--exclude", ".lia.cache", "--exclude", "*.aux"]
+            sh(["rsync", "-a"] + common + ["--exclude", "*.vo", "--exclude", "*.vos", "--exclude", "*.vok",
+                                           "--exclude", "*.glob", COQSRC + "/", COQ + "/"])
+            sh(["rsync", "-a", "--ignore-existing"] + common + ["--include", "*/", "--include", "*.vo", "--include", "*.glob",
+                                                                "--exclude", "*", COQSRC + "/", COQ + "/"])
     if group is None:
         groups = sorted(d for d in os.listdir(COQ) if os.path.isdir(os.path.join(COQ, d)))
         suffix = ""
@@ -225,17 +240,17 @@ def coq_make(targets, timeout=1500, jobs=8):
     if group is None:
         mf, groups = coq_sync(None)
         with MultiLock(groups):
-            return sh(["make", "-f", mf, "-j16"], cwd=COQ, timeout=timeout)
+            return sh(["make", "-f", mf, "-j16"], cwd=COQ, timeout=timeout, memlimit=True)
     with Lock(os.path.join(BUILD, "coq-%s.lock" % group)):
         mf, groups = coq_sync(group)
     base = [os.path.join("Base", rel) + "o" for rel in coq_sources(os.path.join(COQ, "Base"))] if os.path.isdir(os.path.join(COQ, "Base")) else []
     if base:
         with Lock(os.path.join(BUILD, "coq-Base.lock")):
-            rc, out = sh(["make", "-f", mf, "-j%d" % jobs] + base, cwd=COQ, timeout=timeout)
+            rc, out = sh(["make", "-f", mf, "-j%d" % jobs] + base, cwd=COQ, timeout=timeout, memlimit=True)
         if rc != 0:
             return rc, out
     with MultiLock([g for g in groups if g != "Base"]):
-        return sh(["make", "-f", mf, "-j%d" % jobs] + targets, cwd=COQ, timeout=timeout)
+        return sh(["make", "-f", mf, "-j%d" % jobs] + targets, cwd=COQ, timeout=timeout, memlimit=True)
 
 
 def theorem_names(vfile):
@@ -339,7 +354,7 @@ class Check:
                 src = os.path.join(COQ, rel)
                 names = theorem_names(src)
                 self.cov["obligations"] += len(names)
-                rc, out = sh(["coqc", "-Q", ".", "OG", "-w", COQ_WARN, rel], cwd=COQ, timeout=timeout)
+                rc, out = sh(["coqc", "-Q", ".", "OG", "-w", COQ_WARN, rel], cwd=COQ, timeout=timeout, memlimit=True)
                 if rc == 0:
                     self.cov["discharged"] += len(names)
                 else:
@@ -409,7 +424,7 @@ class Check:
         os.makedirs(d, exist_ok=True)
         p = os.path.join(d, name + ".v")
         open(p, "w").write(vtext)
-        return sh(["coqc", "-Q", COQ, "OG", "-w", "-all", p], cwd=d, timeout=timeout)
+        return sh(["coqc", "-Q", COQ, "OG", "-w", "-all", p], cwd=d, timeout=timeout, memlimit=True)
 
     def coq_eval_many(self, named_texts, timeout=900, par=16):
         """compile several scratch files in parallel; returns list of (rc, out) in order."""
@@ -425,7 +440,7 @@ class Check:
                 p = os.path.join(d, name + ".v")
                 open(p, "w").write(txt)
                 pr = subprocess.Popen(["timeout", str(timeout), "coqc", "-Q", COQ, "OG", "-w", "-all", p], cwd=d,
-                                      stdout=subprocess.PIPE, stderr=subprocess.STDOUT, text=True, errors="replace")
+                                      preexec_fn=_limit_mem, stdout=subprocess.PIPE, stderr=subprocess.STDOUT, text=True, errors="replace")
                 running.append((i, pr))
             i, pr = running.pop(0)
             out, _ = pr.communicate()
@@ -523,6 +538,7 @@ class Check:
             os.makedirs(os.path.join(VERIF, "evidence"), exist_ok=True)
             evp = os.path.join(VERIF, "evidence", self.pid + ".json")
         else:
+            os.makedirs(BUILD, exist_ok=True)
             evp = os.path.join(BUILD, "evidence-%s.json" % self.pid)
         json.dump(ev, open(evp + ".tmp", "w"), indent=1, default=str)
         os.replace(evp + ".tmp", evp)
